@@ -1735,6 +1735,7 @@ func (in *Interp) builderCall(fn *types.Func, call *ast.CallExpr, recv Val, args
 		for _, a := range args[1:] {
 			as = append(as, asIR(a))
 		}
+		in.event("call", callee, pos, append([]Val{recv}, args[1:]...)...)
 		return &IRVal{Op: "call", Src: callee, Args: as, Class: callClass(callee)}
 	case "NewPhi":
 		var as []*IRVal
